@@ -147,7 +147,7 @@ def all_tails(refdims, n):
     return _tails[key]
 
 
-def tails_for(refdims, rng, nlong=4):
+def tails_for(refdims, rng, nlong=3):
     short = all_tails(refdims, 1)
     longer = [t for t in all_tails(refdims, 2) if len(t) == 2]
     longer = rng.sample(longer, min(nlong, len(longer)))
@@ -257,7 +257,7 @@ def seq_cases(rep, rng):
                 rep.skip('trace: topology operation not available ({})'.format(type(e).__name__))
                 continue
             try:
-                cases.append(seq_case(full, topo, rng, base=d, geom=g, max_elems=6 if rep.tier == 'quick' else 16))
+                cases.append(seq_case(full, topo, rng, base=d, geom=g, max_elems=4 if rep.tier == 'quick' else 16))
             except Skip as e:
                 rep.skip('trace: ' + str(e))
     return cases
